@@ -220,3 +220,71 @@ def judge_c14(data, v, stats, samples):
         if len(samples) < 5 and c["split"]["name"] in (".", ".."):
             samples.append(dict(tree=c["tree"], op=c["op"], path=path, path2=path2, model=list(m_out), kernel_ref=list(ref["out"]) if ref else None,
                                 lib_kernel=list(d["kernel"]["out"]), lib_emulated=list(d["emulated"]["out"])))
+
+
+UNPRIV = 65534
+
+
+def run_unpriv(data, v, stats, n=400, jobs=12):
+    """The same operations by an unprivileged caller (effective uid 65534) on the same trees with mixed ownership (objects
+    with an even inode number -- and, for every second case, the root directory -- are the caller's, the rest root's):
+    library (both backends, both API surfaces) == the raw *at call on (in-root parent, final name) made by the same
+    caller -- the permission answers included."""
+    rnd = random.Random(seed() + 7)
+    cand = [(ci, c) for ci, c in enumerate(data["cases"]) if kref_call(c) is not None]
+    rnd.shuffle(cand)
+    # permissions matter where the privileged call would succeed: three quarters of the sample from those cases
+    okc = [x for x in cand if x[1]["expect"].get("ok")]
+    cand = okc[:3 * n // 4] + [x for x in cand if not x[1]["expect"].get("ok")][:n - min(len(okc), 3 * n // 4)]
+    pv_cases, index = [], []
+    for ci, c in cand:
+        nodes = []
+        for nd in data["trees"][c["tree"]]["nodes"]:
+            if nd["k"] == "hard":
+                nodes.append(dict(id=1000 + len(nodes), p=nd["p"], n=nd["n"], k="hard", b=str(nd["id"])))
+            else:
+                x = node_to_pv(nd)
+                if nd["id"] % 2 == 0:
+                    x["uid"] = UNPRIV
+                nodes.append(x)
+        if ci % 2 == 0:
+            nodes.insert(0, dict(id=90, p=2, n="", k="rootattr", uid=UNPRIV))
+        api = "c" if ci % 4 >= 2 else "rust"
+        for bname, feat in FEATS:
+            pv_cases.append(dict(id="u%d-%s" % (ci, bname), tree=nodes, feat=feat, trace=False, calls=[dict(lib_call(c), api=api, euid=UNPRIV)]))
+            index.append((ci, bname, api))
+        pv_cases.append(dict(id="u%d-kref" % ci, tree=nodes, feat=FEATS[0][1], trace=False, calls=[dict(kref_call(c), euid=UNPRIV)]))
+        index.append((ci, "kref", api))
+    order = sorted(range(len(pv_cases)), key=lambda i: json.dumps(pv_cases[i]["feat"], sort_keys=True))
+    pv_cases = [pv_cases[i] for i in order]
+    index = [index[i] for i in order]
+    results = run_pv(pv_cases, jobs=jobs, tag="C14u")
+    results, _ = rerun_noisy(pv_cases, results, tag="C14ur")
+    per = collections.defaultdict(dict)
+    for (ci, who, api), r, pc in zip(index, results, pv_cases):
+        if r.get("error") or not r.get("out") or "results" not in r["out"][0]:
+            raise ToolError("pv case failed: %s" % json.dumps(r)[:400])
+        first_new = max([i["id"] for i in r["init"]["inodes"]]) + 1
+        res0 = r["out"][0]["results"][0]
+        per[ci][who] = dict(out=outcome(res0, first_new), shape=shape_of_snapshot(r["final"], first_new), newattrs=new_attrs(r["final"], first_new),
+                            oldchanged=old_attrs_changed(r["init"], r["final"], first_new), api=api, case=pc)
+    outc = collections.Counter()
+    for ci, c in cand:
+        d = per[ci]
+        ref = d["kref"]
+        outc[str(ref["out"][1]) if ref["out"][0] == "err" else "ok"] += 1
+        for bname, _ in FEATS:
+            got = d[bname]
+            stats["unpriv_runs"] += 1
+            canon = (lambda e: {"InvalidArgument": "EINVAL", "SAFETY": "EXDEV"}.get(e, e)) if got["api"] == "c" else (lambda e: e)
+            same_out = got["out"][0] == ref["out"][0] and (got["out"][0] != "err" or canon(got["out"][1]) == canon(ref["out"][1])) and \
+                (c["op"]["op"] != "create_file" or got["out"][0] != "ok" or got["out"] == ref["out"])
+            if same_out and got["shape"] == ref["shape"] and got["newattrs"] == ref["newattrs"] and got["oldchanged"] == ref["oldchanged"]:
+                stats["unpriv_agree"] += 1
+                continue
+            path, path2 = "/".join(c["path"]), "/".join(c["path2"])
+            v.violation(dict(check="rootops-unprivileged", backend=bname, op=c["op"]["op"], path=path, path2=path2, tree=c["tree"], got=list(got["out"]), want=list(ref["out"])),
+                        "%s%s backend, caller uid 65534 on tree %s with mixed ownership: %s(%r%s): outcome %s, final tree %s; the raw *at call on (in-root parent %r, name %r) by the same caller gives %s" % (
+                            "[C API] " if got["api"] == "c" else "", bname, c["tree"], json.dumps(c["op"]), path, (", %r" % path2) if path2 else "", got["out"],
+                            "the same" if got["shape"] == ref["shape"] else "DIFFERS (%s)" % sorted(got["shape"] ^ ref["shape"], key=str)[:4], "/".join(c["split"]["dir"]), c["split"]["name"], ref["out"]), got["case"])
+    stats["unpriv_outcomes"] = dict(outc)
